@@ -279,6 +279,9 @@ def _run_filter(job):
         real = "remove_duplicates" if fname == "remove_duplicates_default" else fname
         res = _apply(ds, real, args, kwargs)
         obs = _result_obligations(ds, before, res, preds, real, args, kwargs)
+        # no hidden state: the same filter applied to the same (unchanged) input once more selects the same mazes
+        res_again = _apply(ds, real, args, kwargs)
+        obs += [(n + " (second application to the same input)", o) for n, o in _result_obligations(ds, before, res_again, preds, real, args, kwargs)[:3]]
         # a later in-place metadata collection on the RESULT must not reach back into the input
         if job.get("then_collect") and len(res.mazes) > 0:
             res2 = res.filter_by.collect_generation_meta()
